@@ -208,6 +208,8 @@ struct Th {
     started: bool,
     /// blocked on a condvar (eligible for spurious wake-ups)
     on_condvar: bool,
+    /// how many times this thread had to block
+    blocks: u64,
     leaked: bool,
 }
 
@@ -242,7 +244,6 @@ struct State {
     quiesce_spin: u64,
     digest: u64,
     seq: u64,
-    next_obj: u64,
     failure: Option<Failure>,
     shards: Option<usize>,
     spurious_pct: u8,
@@ -267,6 +268,31 @@ pub fn atomic_point(class: u32, label: &'static str) {
 static RT: OsMutex<Option<State>> = OsMutex::new(None);
 static COORD: OsCondvar = OsCondvar::new();
 thread_local! { static CUR: Cell<Option<(usize, u64)>> = const { Cell::new(None) }; }
+thread_local! { static RT_DEPTH: Cell<u32> = const { Cell::new(0) }; }
+/// Marks "this thread is executing simulator code": lets an accounting allocator ignore the runtime's own allocations.
+pub struct RtGuard;
+impl RtGuard {
+    #[inline]
+    pub fn new() -> RtGuard {
+        RT_DEPTH.with(|d| d.set(d.get() + 1));
+        RtGuard
+    }
+}
+impl Default for RtGuard {
+    fn default() -> Self {
+        Self::new()
+    }
+}
+impl Drop for RtGuard {
+    #[inline]
+    fn drop(&mut self) {
+        RT_DEPTH.with(|d| d.set(d.get() - 1));
+    }
+}
+#[inline]
+pub fn in_runtime() -> bool {
+    RT_DEPTH.try_with(|d| d.get() > 0).unwrap_or(true)
+}
 
 /// Payload used to unwind simulated threads at the end of a run.
 pub struct SimAbort;
@@ -465,6 +491,9 @@ fn switch(mut g: OsGuard<'static, Option<State>>, me: usize, status: Status, why
         t.why = why;
         t.blocked_on = on;
         t.steps += 1;
+        if matches!(status, Status::Blocked | Status::IdleBlocked) {
+            t.blocks += 1;
+        }
     }
     st.tr(|| format!("t{me} -> {status:?} {why}"));
     let terminal = matches!(status, Status::Finished | Status::Panicked);
@@ -527,15 +556,16 @@ fn wake_one(st: &mut State, obj: u64) {
     t.on_condvar = false;
 }
 
-/// Allocate a simulator object id (0 outside a run).
+static NEXT_OBJ: std::sync::atomic::AtomicU64 = std::sync::atomic::AtomicU64::new(0);
+static RUN_ACTIVE: std::sync::atomic::AtomicBool = std::sync::atomic::AtomicBool::new(false);
+/// Allocate a simulator object id (0 outside a run). Lock-free, so it may be called with the runtime lock held;
+/// deterministic because only the baton holder runs.
 pub fn new_obj() -> u64 {
-    let mut g = lock();
-    match g.as_mut() {
-        Some(st) => {
-            st.next_obj += 1;
-            st.next_obj
-        }
-        None => 0,
+    use std::sync::atomic::Ordering::Relaxed;
+    if RUN_ACTIVE.load(Relaxed) {
+        NEXT_OBJ.fetch_add(1, Relaxed) + 1
+    } else {
+        0
     }
 }
 fn epoch() -> u64 {
@@ -567,6 +597,7 @@ impl ObjId {
 // ---------------------------------------------------------------- scheduling points and observation
 /// A scheduling point: any runnable thread may run next.
 pub fn yield_point(label: &'static str) {
+    let _rt = RtGuard::new();
     let Some(me) = me() else { return };
     if std::thread::panicking() {
         return;
@@ -581,6 +612,7 @@ pub fn yield_point(label: &'static str) {
 
 /// Record an observation in the event log (visible in `RunResult::probes`).
 pub fn probe(label: &'static str, val: u64) {
+    let _rt = RtGuard::new();
     if let Some(me) = me() {
         let mut g = lock();
         if let Some(st) = g.as_mut() {
@@ -596,6 +628,7 @@ pub fn count(label: &'static str) {
     count_n(label, 1)
 }
 pub fn count_n(label: &'static str, n: u64) {
+    let _rt = RtGuard::new();
     if me().is_some() {
         let mut g = lock();
         if let Some(st) = g.as_mut() {
@@ -605,6 +638,7 @@ pub fn count_n(label: &'static str, n: u64) {
 }
 /// Global event sequence number (a logical clock: strictly increases with every logged event).
 pub fn seq() -> u64 {
+    let _rt = RtGuard::new();
     let mut g = lock();
     match g.as_mut() {
         Some(st) => {
@@ -614,10 +648,16 @@ pub fn seq() -> u64 {
         None => 0,
     }
 }
+/// How many times the calling thread has blocked so far.
+pub fn my_block_count() -> u64 {
+    let Some(me) = me() else { return 0 };
+    lock().as_ref().map(|s| s.threads[me].blocks).unwrap_or(0)
+}
 pub fn steps_now() -> u64 {
     lock().as_ref().map(|s| s.steps).unwrap_or(0)
 }
 pub fn note(f: impl FnOnce() -> String) {
+    let _rt = RtGuard::new();
     if let Some(me) = me() {
         let mut g = lock();
         if let Some(st) = g.as_mut() {
@@ -653,6 +693,7 @@ pub fn rng_aux(n: u64) -> u64 {
 }
 /// A recorded decision of the scheduler stream (goes on the tape).
 pub fn decide(n: usize) -> usize {
+    let _rt = RtGuard::new();
     if n <= 1 || !in_sim() {
         return 0;
     }
@@ -669,6 +710,7 @@ pub fn decide(n: usize) -> usize {
 
 /// Report a violation and end the run. Never returns.
 pub fn fail(rule: &str, msg: String) -> ! {
+    let _rt = RtGuard::new();
     let me = current_thread();
     assert!(!std::thread::panicking(), "detsim::fail called while unwinding; use report()");
     let mut g = lock();
@@ -687,6 +729,7 @@ pub fn fail(rule: &str, msg: String) -> ! {
 }
 /// Record a violation without unwinding (usable from `Drop`); the run ends at the next scheduling point.
 pub fn report(rule: &str, msg: String) {
+    let _rt = RtGuard::new();
     let mut g = lock();
     if let Some(st) = g.as_mut() {
         if st.failure.is_none() {
@@ -713,6 +756,7 @@ fn infos(st: &State) -> Vec<ThreadInfo> {
 
 /// Block until no other thread can run (all blocked / idle / finished). Returns the state of every thread.
 pub fn quiesce() -> Vec<ThreadInfo> {
+    let _rt = RtGuard::new();
     let me = current_thread();
     {
         let mut g = lock();
@@ -756,6 +800,7 @@ pub mod thread {
         }
     }
     fn join_id(id: usize, done: u64) {
+    let _rt = RtGuard::new();
         let me = current_thread();
         loop {
             let mut g = lock();
@@ -810,17 +855,17 @@ pub mod thread {
         F: FnOnce() -> T + Send + 'a,
         T: Send + 'a,
     {
+        let _rt = RtGuard::new();
         let slot: Arc<OsMutex<Option<std::thread::Result<T>>>> = Arc::new(OsMutex::new(None));
         let slot2 = slot.clone();
         let (id, done, ep, cv) = {
             let mut g = lock();
             let st = g.as_mut().expect("detsim: spawn outside a run");
-            st.next_obj += 1;
-            let done = st.next_obj;
+            let done = new_obj();
             let cv = Arc::new(OsCondvar::new());
             // draw the priority from the stream only under PCT so other policies keep their sequences
             let prio = if matches!(st.policy, Policy::Pct(..)) { st.sched.next() | (1 << 62) } else { 1 << 62 };
-            st.threads.push(Th { status: Status::Runnable, cv: cv.clone(), name: name.clone(), steps: 0, blocked_on: vec![], why: "new", prio, started: false, on_condvar: false, leaked: false });
+            st.threads.push(Th { status: Status::Runnable, cv: cv.clone(), name: name.clone(), steps: 0, blocked_on: vec![], why: "new", prio, started: false, on_condvar: false, blocks: 0, leaked: false });
             let id = st.threads.len() - 1;
             st.log(0x54, id as u64, 0);
             st.tr(|| format!("spawn t{id} {name}"));
@@ -828,6 +873,7 @@ pub mod thread {
         };
         let body: Box<dyn FnOnce() + Send + 'a> = Box::new(move || {
             CUR.with(|c| c.set(Some((id, ep))));
+            let rt = RtGuard::new();
             // wait for the baton
             {
                 let mut g = lock();
@@ -848,7 +894,9 @@ pub mod thread {
                     g = cv.wait(g).unwrap_or_else(|e| e.into_inner());
                 }
             }
+            drop(rt);
             let r = panic::catch_unwind(AssertUnwindSafe(f));
+            let _rt = RtGuard::new();
             let aborted = matches!(&r, Err(e) if e.is::<SimAbort>());
             let injected = matches!(&r, Err(e) if e.is::<InjectedPanic>());
             let status = if r.is_ok() { Status::Finished } else { Status::Panicked };
@@ -972,7 +1020,6 @@ pub fn run<F: FnOnce() + Send + 'static>(cfg: RunConfig, main: F) -> RunResult {
             quiesce_spin: 0,
             digest: 0xcbf29ce484222325,
             seq: 0,
-            next_obj: 0,
             failure: None,
             shards: cfg.shards,
             spurious_pct: cfg.spurious_pct,
@@ -986,6 +1033,8 @@ pub fn run<F: FnOnce() + Send + 'static>(cfg: RunConfig, main: F) -> RunResult {
             notify: Default::default(),
         });
         ATOMIC_MASK.store(cfg.atomic_mask, std::sync::atomic::Ordering::Relaxed);
+        NEXT_OBJ.store(0, std::sync::atomic::Ordering::Relaxed);
+        RUN_ACTIVE.store(true, std::sync::atomic::Ordering::Relaxed);
     }
     let _h = thread::spawn_named("main".into(), main);
     // coordinator: wait for the end of the run, then unwind what is left, youngest thread first
@@ -1046,6 +1095,7 @@ pub fn run<F: FnOnce() + Send + 'static>(cfg: RunConfig, main: F) -> RunResult {
             }
         }
     }
+    RUN_ACTIVE.store(false, std::sync::atomic::Ordering::Relaxed);
     let st = lock().take().unwrap();
     RunResult {
         failure: st.failure,
